@@ -953,4 +953,78 @@ example : identifyFamily (1 / 100000 : ℚ) (1 / 100000000) ⟨3, 3, 3, 60, 60, 
   decide +kernel
 example : [1, -2, 0] ∈ allIndices 2 false := by decide
 
+
+/-! ## round 5: order of the rows, bounds past the small primes, wide intermediates -/
+
+/-- ORDER of the rows (round 5): the FIRST row of an array gets its own result and decides nothing about the others: the
+    array is the first row's result followed by the result of the rest; a refused first row (or rest) refuses the whole. -/
+theorem planeArr_cons (rtol atol gatol : Rat) (isHex : Bool) (V : M3 Rat) (x : List Rat) (xs : List (List Rat)) :
+    planeArr rtol atol gatol isHex V (x :: xs) =
+      match planeRow rtol atol gatol isHex V x, planeArr rtol atol gatol isHex V xs with
+      | .ok n, .ok o => .ok (n :: o)
+      | _, _ => .error .value := by
+  have h1 : planeArr rtol atol gatol isHex V [x] =
+      match planeRow rtol atol gatol isHex V x with
+      | .ok n => .ok [n]
+      | .error _ => .error .value := by
+    unfold planeArr
+    simp only [List.all_cons, List.all_nil, Bool.and_true, List.filterMap_cons, List.filterMap_nil]
+    rcases h : planeRow rtol atol gatol isHex V x with e | n <;> simp [Except.toBool]
+  rw [show x :: xs = [x] ++ xs from rfl, planeArr_append, h1]
+  cases planeRow rtol atol gatol isHex V x <;> cases planeArr rtol atol gatol isHex V xs <;> simp
+
+/-- the same planes handed over in reverse order give the reversed results (and are refused alike). -/
+theorem planeArr_reverse (rtol atol gatol : Rat) (isHex : Bool) (V : M3 Rat) (xs : List (List Rat)) :
+    planeArr rtol atol gatol isHex V xs.reverse =
+      match planeArr rtol atol gatol isHex V xs with
+      | .ok o => .ok o.reverse
+      | .error e => .error e := by
+  unfold planeArr
+  rw [List.all_reverse, List.filterMap_reverse]
+  by_cases h : (xs.all fun r => (planeRow rtol atol gatol isHex V r).toBool) = true <;> simp [h]
+
+/-- the same planes in ANY order: accepted alike, and the results are the same normals in the permuted order — what comes
+    first (a basal plane (0 0 l), a plane with three non-zero indices) has no bearing on the rows that follow. -/
+theorem planeArr_perm (rtol atol gatol : Rat) (isHex : Bool) (V : M3 Rat) (xs ys : List (List Rat)) (hp : xs.Perm ys) :
+    match planeArr rtol atol gatol isHex V xs, planeArr rtol atol gatol isHex V ys with
+    | .ok o1, .ok o2 => o1.Perm o2
+    | .error _, .error _ => True
+    | _, _ => False := by
+  unfold planeArr
+  rw [hp.all_eq]
+  by_cases h : (ys.all fun r => (planeRow rtol atol gatol isHex V r).toBool) = true
+  · simp only [h, if_true]
+    exact hp.filterMap _
+  · simp [h]
+
+/-- `all_indices(m, reduce=True)` for EVERY bound `m` (37, 41, 43, ... included: no table of primes runs out): each row
+    listed is a coprime index set — its gcd is 1, the only common divisors are ±1. -/
+theorem allIndices_reduce_coprime (m : ℤ) (t : List ℤ) (ht : t ∈ allIndices m true) :
+    gcdList t = 1 ∧ ∀ d : ℤ, (∀ x ∈ t, d ∣ x) → d = 1 ∨ d = -1 := by
+  obtain ⟨t', ht', hr⟩ := (allIndices_reduce_complete m t).mp ht
+  obtain ⟨u, v, w, rfl⟩ := allIndices_sound m t' ht'
+  have hnz := ((allIndices_complete m u v w).mp ht').2.2.2
+  have hex : ∃ x ∈ [u, v, w], x ≠ 0 := by
+    by_contra hcon
+    have hall : ∀ x ∈ [u, v, w], x = 0 := fun x hx => by
+      by_contra hne
+      exact hcon ⟨x, hx, hne⟩
+    exact hnz ⟨hall u (by simp), hall v (by simp), hall w (by simp)⟩
+  obtain ⟨r, hr', hg, hd⟩ := reduce_coprime [u, v, w] (by simp) hex
+  rw [hr] at hr'
+  injection hr' with hr'
+  subst hr'
+  exact ⟨hg, hd⟩
+
+/-- non-vacuity / the rows a fixed prime table lets through. -/
+example : [37, 0, 0] ∉ allIndices 37 true := by
+  intro h
+  have := (allIndices_reduce_coprime 37 _ h).1
+  revert this
+  decide
+
+/-- index sets an `int32` array holds whose product / in-plane quotients it does not hold: the model works in ℤ. -/
+example : planeInPlane 2048 2048 1024 = .ok (⟨-1, 1, 0⟩, ⟨-1, 0, 2⟩, 1) := by decide
+example : planeInPlane 65537 65539 65543 = .ok (⟨-(65539 * 65543), 65537 * 65543, 0⟩, ⟨-(65539 * 65543), 0, 65537 * 65539⟩, 1) := by decide
+example : (2 : ℤ) ^ 31 ≤ 65539 * 65543 ∧ (2048 * 2048 * 1024 : ℤ) = 2 ^ 32 := by decide
 end Atomman.C16
